@@ -201,7 +201,7 @@ def shard_run(arg):
 
 def run(tier, seed, work):
     res = vp.Result("C17", tier, seed, "exploration")
-    n = 1000 if tier == "quick" else 15000
+    n = 4000 if tier == "quick" else 30000
     for d in vp.pmap(shard_run, [(seed, s, work) for s in vp.split(range(n), vp.NCPU)]):
         res.merge(d)
     res.rule = ("evaluations = scenarios (one pack build, one detached docker run, one run_shell_command, one shell_exec each) whose logged argv was decoded and compared. distinct_nontrivial = distinct "
